@@ -192,3 +192,102 @@ def aval_of(sp):
                 items.append("It_other")
         return "(Av_list [%s])" % "; ".join(items)
     return "Av_other"
+
+
+# ------------------------------------------------------------------------------------
+# zero-variance boundary of the t statistics
+# ------------------------------------------------------------------------------------
+#
+# Every t of C13 is  d / sqrt(V)  with V a SIGNED sum of terms:
+#     column proportions test   V = a + b,  a = p (1 - p) / n,  b = p0 (1 - p0) / n0
+#                               (a term is negative when its p is a difference subtotal
+#                               outside [0, 1])
+#     overlap test              V = (pa (1 - pa) + pb (1 - pb) + 2 pa pb - 2 pab) / df,  px = Sx / Nx
+# float64 evaluates each TERM with a relative error of a few ulp (1 - p is exact or rounded once,
+# products and quotients are rounded once), hence V with an absolute error of a few ulp of
+#     S = sum of |terms|.
+# When the terms cancel - |V| of the order 1e-16 * S or exactly 0 - the float V is a rounding
+# residue of arbitrary sign, or exactly 0.0, while the exact V of the same inputs is another
+# residue, or exactly 0:
+#     exact   0/0 = NaN,  x/0 = inf,  x/residue ~ 1e17,  legacy sqrt(residue < 0) = NaN
+#     float   0/residue = 0.0,  x/0.0 = inf,  ...
+# All of these are "t at zero variance"; which one comes out is decided by IEEE rounding, a
+# stated modelling gap (DESIGN 2.4: decisions within rounding of their threshold are skipped and
+# counted).  RULE: a cell is a zero-variance boundary cell iff every input of V is finite,
+# S > 0 and
+#                 |V| <= BOUNDARY_REL * S          (BOUNDARY_REL = 1e-12)
+# evaluated exactly (fractions) on the very values the model term is fed with.  1e-12 is four
+# orders above the rounding noise (1e-16 S) and far below any non-cancelling V of the generated
+# tables (the smallest ratio among the non-boundary cells is recorded in the evidence).  A sum
+# whose terms are all of one sign (S = |V|: every table without difference subtotals on the
+# column proportions paths) and an exact zero with S = 0 (p, p0 in {0, 1}: float64 gives exactly
+# 0.0 too) never qualify.  Boundary cells are compared like every other cell (many agree: both
+# sides 0/0 = NaN when every float operation happens to be exact); only a DISAGREEMENT at a
+# boundary cell is excused - skipped and counted - and only if the reported t is still a
+# zero-variance statistic (boundary_consistent).
+
+BOUNDARY_REL = Fraction(1, 10 ** 12)
+# what the implementation may still report at a boundary cell: with |V_float| <= ~1e-12 S the
+# statistic is NaN, or has the sign of d and t^2 >= d^2 / (1e-12 S); checked with 3 orders slack
+BOUNDARY_RESIDUAL_REL = Fraction(1, 10 ** 9)
+
+
+def _finite(*xs):
+    return all(isinstance(x, Fraction) for x in xs)
+
+
+def prop_var_VS(p, n, p0, n0):
+    """(V, S) of the column-proportions variance  p(1-p)/n + p0(1-p0)/n0  - exact; None when an
+    input is not finite or a base is 0 (the model's x/0 / NaN rules apply, nothing to cancel)."""
+    if not _finite(p, n, p0, n0) or n == 0 or n0 == 0:
+        return None
+    a, b = p * (1 - p) / n, p0 * (1 - p0) / n0
+    return a + b, abs(a) + abs(b)
+
+
+def overlap_var_VS(Sa, Sb, Sab, Na, Nb, Nab):
+    """(V, S) of the overlap variance (pa(1-pa) + pb(1-pb) + 2 pa pb - 2 pab) / df,
+    px = Sx / Nx, df = Na + Nb - Nab - exact; None when a quotient is undefined."""
+    if not _finite(Sa, Sb, Sab, Na, Nb, Nab) or Na == 0 or Nb == 0 or Nab == 0:
+        return None
+    df = Na + Nb - Nab
+    if df == 0:
+        return None
+    pa, pb, pab = Sa / Na, Sb / Nb, Sab / Nab
+    terms = (pa * (1 - pa), pb * (1 - pb), 2 * pa * pb, -2 * pab)
+    return sum(terms) / df, sum(abs(x) for x in terms) / abs(df)
+
+
+def is_boundary(VS):
+    """the rule above; VS = (V, S) or None"""
+    if VS is None:
+        return False
+    V, S = VS
+    return S > 0 and abs(V) <= BOUNDARY_REL * S
+
+
+def boundary_cell(VS, d):
+    """None for an ordinary cell, else {"S": S, "d": d}: what the residual check needs"""
+    if not is_boundary(VS):
+        return None
+    return {"S": VS[1], "d": d if isinstance(d, Fraction) else None}
+
+
+def boundary_consistent(t_impl, b):
+    """A disagreement with the model at a boundary cell is excused only if the reported t is
+    still a statistic at (float) zero variance: NaN, or - when d is known - of the sign of d
+    with t^2 >= d^2 / (BOUNDARY_RESIDUAL_REL * S)  (d = 0: t = 0).  A variance that is clearly
+    non-zero in the implementation (a dropped / extra term) fails this."""
+    t = float("nan") if t_impl is None else float(t_impl)
+    if t != t:
+        return True
+    d = b["d"]
+    if d is None:
+        return True
+    if d == 0:
+        return t == 0
+    if (t > 0) != (d > 0) or t == 0:
+        return False
+    if t in (float("inf"), float("-inf")):
+        return True
+    return Fraction(t) ** 2 * BOUNDARY_RESIDUAL_REL * b["S"] >= d * d
